@@ -102,8 +102,15 @@ func (u *udpHandler) Handle() error {
 			TLOG.Errorf("Close connection %s: %v", u.config.Address, err)
 			return err // TODO: check if necessary
 		}
-		pkg := make([]byte, n)
-		copy(pkg, buffer[0:n])
+		// a datagram is handed to the protocol only if it is one complete package
+		// (the protocol slices off the header without checking the length)
+		pkgLen, status := u.server.protocol.ParsePackage(buffer[0:n])
+		if status != PackageFull || pkgLen > n {
+			TLOG.Errorf("drop malformed datagram from %v, length %d", udpAddr, n)
+			continue
+		}
+		pkg := make([]byte, pkgLen)
+		copy(pkg, buffer[0:pkgLen])
 		u.handleUDPAddr(udpAddr, pkg)
 	}
 }
